@@ -36,11 +36,12 @@ Print Assumptions C05_fcc_emits_its_characters.
 
 (* (a') the two halves joined, from the SOURCE LINE to the bytes with no hypothesis about the table row: the row the line
    scanner finds for FCC in the REGENERATED table is the FCC row (re-checked by computation on every build), so the
-   statement the FCC line parses to emits exactly the characters of the string and reserves exactly that many bytes *)
+   statement the FCC line parses to is left as parsed by symbol resolution whatever the table holds, emits exactly the characters of the string and reserves exactly that many bytes *)
 Theorem C05_fcc_line_emits_its_characters :
   forall d str tail,
     is_space d = false -> ~ In d str -> Forall (fun c => c < 256) str -> mem_c 10 (removelast (fcc_line d str tail)) = false ->
     exists st p, parse_line (fcc_line d str tail) = Ok (Some st) /\ s_label st = [] /\
+      (forall tb, resolve_operand (s_operand st) (s_instr st) tb = Ok (s_operand st)) /\
       translate_operand (s_operand st) (s_instr st) = Ok p /\
       emit_value (cp_op p) = Ok [] /\ emit_value (cp_post p) = Ok [] /\ emit_value (cp_add p) = Ok str /\
       cp_size p = N.of_nat (length str).
